@@ -372,9 +372,13 @@ def generate_jobs(unit, tier):
                              unwind=unwind or (K + 3), cbmc_flags=[], timeout=600, defs='#define VERIF_SORT_MAX %d\n#define VEC_BCAP %d' % (K + 1, 2 * K + 2),
                              bound='stored ranges before the operation = %d; end points symbolic (%s); unwinding %d' % (K, 'any non-NaN double' if m == 'double' else '|v| <= 10^6 (so that length sums cannot overflow)', unwind or (K + 4)),
                              doc='%s on %s with %d stored ranges: %s' % (name, t, K, note)))
-        for K in range(0, kmax + 1):
+        # addRange merges several stored ranges into one: the interesting histories need three stored ranges, so K = 3 is in the quick tier too
+        for K in range(0, 4):
+            if K == 3 and m == 'double' and tier != 'thorough':
+                continue    # 8 minutes of solver time: thorough tier only
             sumc = (SUM_INT % dict(m=m)) if m != 'double' else ''
             J('MultiRange_addRange', K, _harness(m, c, K, H_ADD.replace('%(sumcheck)s', sumc), tier), unwind=K + 3, note='WF, union, totalLength')
+        for K in range(0, kmax + 1):
             J('MultiRange_restrictTo', K, _harness(m, c, K, H_RESTRICT, tier), note='WF, intersection')
             J('MultiRange_filterWithin', K, _harness(m, c, K, H_FILTER.replace('%(CLS)s', 'MultiRange').replace('%(ordered)d', '1'), tier), note='keeps exactly the contained ranges')
             J('RangeSet_filterWithin', K, _harness(m, c, K, H_FILTER.replace('%(CLS)s', 'RangeSet').replace('%(ordered)d', '0'), tier), note='keeps exactly the contained ranges')
